@@ -23,6 +23,7 @@ WEAK = {  # switch -> properties one of which TLC must refute
     "LateAddUnchecked": ("OnceOnly", "AdmitOnlyAdmissible"),
     "BufferUsesCurrentValSet": ("AdmitOnlyAdmissible", "NoPanic", "BufferFlushed"),
     "BufferDedupIgnoresVoteType": ("BufferFlushed",),
+    "CommittedMarkersDeferred": ("OnceOnly", "BlockCheck", "AdmitOnlyAdmissible"),
     "ExpiryUsesStartupParams": ("BlockCheck", "ExpiryBoth", "SurvivesRestart", "PendingKept"),
 }
 HARNESS = ["zz_verif_c11_test.go", "zz_verif_c11_gen_test.go"]
@@ -39,6 +40,10 @@ def act_to_op(a):
         return {"op": "Report", "pair": a["pair"]}
     if n == "Update":
         return {"op": "Update", "ids": list(a["ids"]), "crash": bool(a["crash"])}
+    if n == "UpdateBegin":
+        return {"op": "UpdateBegin", "ids": list(a["ids"]), "k": a["k"]}
+    if n == "UpdateEnd":
+        return {"op": "UpdateEnd"}
     if n == "Pending":
         return {"op": "Pending", "mb": a["mb"]}
     if n == "Restart":
@@ -60,11 +65,18 @@ def row_to_op(r):
         return {"op": "Report", "pair": r["pair"], "swap": bool(r.get("swap"))}
     if e == "Update":
         return {"op": "Update", "ids": r["ids"], "crash": r["crash"], "to": r["to"]}
+    if e == "UpdateBegin":
+        return {"op": "UpdateBegin", "ids": r["ids"], "k": r["k"]}
+    if e == "UpdateEnd":
+        return {"op": "UpdateEnd"}
     if e == "Pending":
         return {"op": "Pending", "real": True, "bytes": r["mb"]}
     if e in ("Restart", "RestartFailed"):
         return {"op": "Restart"}
     if e == "AddBegin":
+        # an AddEvidence that waited for the pool's mutex was a plain concurrent call
+        if r.get("how") == "mutex":
+            return {"op": "Add", "id": r["id"]}
         return {"op": "AddBegin", "id": r["id"], "tk": r["tk"]}
     if e == "AddEnd":
         return {"op": "AddEnd", "tk": r["tk"]}
@@ -99,6 +111,23 @@ def case_runs(c):
             ops += [{"op": "Report", "pair": q}, {"op": "Update", "ids": []}, {"op": "Pending", "mb": -1},
                     {"op": "Restart"}, {"op": "Update", "ids": []}]
             runs.append({"src": "cases", "ctx": "cases", "ops": ops})
+    # a block commits an item while a peer gossips the very same item (and the proposer asks for
+    # evidence): Update stopped before each of its committed-marker writes
+    gen = sorted(i for i, it in c["dv"].items() if it["mut"] == "genuine")
+    for i in gen:
+        h = c["dv"][i]["h"]
+        for at in (h, h + 1):
+            if at < c["H0"] or at + 1 > c["N"]:
+                continue
+            others = [j for j in gen if j != i and c["dv"][j]["h"] <= at]
+            for ids in [[i]] + [[o, i] for o in others[:1]] + [[i, o] for o in others[:1]]:
+                for k in range(1, len(ids) + 1):
+                    ops = [{"op": "Update", "ids": []} for _ in range(at - c["H0"])]
+                    ops += [{"op": "Add", "id": j} for j in ids] + [{"op": "Check", "ids": ids}]
+                    ops += [{"op": "UpdateBegin", "ids": ids, "k": k}, {"op": "Add", "id": i}, {"op": "Pending", "mb": -1},
+                            {"op": "Add", "id": ids[0]}, {"op": "UpdateEnd"}, {"op": "Pending", "mb": -1},
+                            {"op": "Check", "ids": [i]}, {"op": "Restart"}, {"op": "Pending", "mb": -1}]
+                    runs.append({"src": "cases", "ctx": "cases", "ops": ops})
     # one validator double-signing prevote AND precommit in one round: two pairs, each reported
     # several times and in both orders; every distinct pair must become one pending item
     for v in sorted(q for q in c["pairs"] if q.startswith("v")):
